@@ -14,7 +14,7 @@ EXPLANATION = (
     "enqueues an ACK; (T-SEQTBL) is_seq_ok itself, reduced to a formula over its arguments, is the four-row decision "
     "table of RFC 9293 Table 6 on (SEG.LEN = 0, RCV.WND = 0) in the revision the code cites (lower edge RCV.NXT-1): "
     "first-or-last-byte-in-window for data, nothing acceptable but ACKs on a zero window, bounds compared as linear "
-    "forms modulo 2^32 (the comparator it relies on is decided under C12 Q-PRIM); (T-SYNSENT) in SYN-SENT a segment with neither SYN nor RST reaches no write of state, RCV.* or "
+    "forms modulo 2^32 (the comparator it relies on is decided under C12 Q-PRIM); (T-INFLIGHT) the octets subtracted from SND.WND, Outgoing::queued_bytes, count every entry of the retransmission queue (no filtering or partial iteration); (T-SYNSENT) in SYN-SENT a segment with neither SYN nor RST reaches no write of state, RCV.* or "
     "the receive buffer; (T-WINDOW) the amount of new data cut for transmission depends through min() on SND.WND minus "
     "the bytes in flight; (P-PANIC) panic sites reachable from the segment entry points whose operands depend on "
     "header fields or text length (see C14 machinery). Decides these structural clauses for all segment sequences; "
@@ -83,6 +83,7 @@ def run(ctx):
     run_structural(ctx)
     from . import seqprims
     seqprims.check_seq_ok(ctx, "T-SEQTBL")
+    t_inflight(ctx)
     run_panics(ctx)
 
 
@@ -181,3 +182,33 @@ def run_structural(ctx):
             probs.append("no min() takes the remaining window as an operand")
     (ctx.bad if probs else ctx.ok)("T-WINDOW", "T-WINDOW:Tcb::segments", sg.span, "; ".join(probs) if probs else
         "new data = min(max segment, SND.WND - bytes in flight, queued text)")
+
+
+
+def t_inflight(ctx):
+    """SND.WND limits the octets *outstanding*: the quantity subtracted from the window in Tcb::segments,
+    Outgoing::queued_bytes, must count every entry of the retransmission queue - queued for its first transmission,
+    in flight, or re-armed by the retransmission timer alike. Any filtering / skipping / early-terminating adaptor on
+    that iteration lets new text go out beyond SND.UNA + SND.WND."""
+    prog = ctx.prog()
+    qb = prog.method("Outgoing", "queued_bytes")
+    scope = [qb] + [b for b in prog.bodies.values() if b.parent == qb.key]
+    PARTIAL = {"filter", "filter_map", "skip", "skip_while", "take", "take_while", "step_by", "find", "position", "nth", "last", "next", "next_back",
+               "min", "max", "min_by_key", "max_by_key", "map_while", "scan", "rev_take", "range", "front", "back", "get", "first"}
+    probs = []
+    seen_iter = seen_sum = False
+    for b in scope:
+        for bb, t in K.calls(b):
+            decl = (F.callee(t) or {}).get("fn", "")
+            nm = decl.rsplit("::", 1)[-1]
+            ck = F.callee_key(t) or ""
+            if ck.rsplit("::", 1)[-1] in ("iter", "iter_mut", "into_iter") and F.call_args(t) and dep.has_field(dep.arg_origins(b, bb, 0), "Outgoing", "retransmit"):
+                seen_iter = True
+            if nm in ("sum", "fold") and "Iterator" in decl:
+                seen_sum = True
+            if (nm in PARTIAL and ("Iterator" in decl or "vec_deque" in ck)):
+                probs.append("queued_bytes() uses %s (%s): only part of the retransmission queue is counted, so after a retransmission timeout (all entries re-armed) the usable window is computed as if nothing were outstanding and new text is sent beyond SND.UNA + SND.WND" % (nm, F.call_loc(t)))
+    if not (seen_iter and seen_sum):
+        ctx.require(False, "T-INFLIGHT: queued_bytes() is no longer a sum over outgoing.retransmit: no verdict")
+    (ctx.bad if probs else ctx.ok)("T-INFLIGHT", "T-INFLIGHT:Outgoing::queued_bytes", qb.span, "; ".join(probs[:2]) if probs else
+        "queued_bytes() sums the text length of every entry of the retransmission queue")
